@@ -98,3 +98,54 @@ def c05(tier):
             else:
                 js.append(j)
     return js
+
+
+# ------------------------------------------------------------------------------------------- C20
+@prop("C20",
+      functions=["h3ToString", "stringToH3"],
+      bounds="all 2^64 index values; buffer sizes 0..16 symbolic, 17 and 32 concrete (canaries beyond byte 17); parse: every string of <= 6 arbitrary bytes",
+      outside="buffer sizes other than 0-17 and 32; strings longer than 6 bytes; libc itself (trusted, cross-checked by differential run of the S-FMT model on 1.1e6 seeded cases per run)",
+      assumptions=["sprintf/snprintf/sscanf behave as C11 7.21.6 says for the conversions %[0][width][l|ll|j|z|h|hh]{x,X,u,d}: interpretive model harness/common/fmt.h"],
+      stubs=["S-FMT: sprintf, snprintf, sscanf, __isoc99_sscanf (model interprets the format string passed by the real code)"])
+def c20(tier):
+    js = [J("fmt_model_vs_libc", "native/fmt_diff.c", native_test=True, est=3, core=False, bound="1.1e6 seeded value x format cases")]
+    js += with_witness(J("small", "C20_string.c", ["-DSMALL"], unwind=25, est=3, bound="all h, sz in [0,16]"))
+    js += with_witness(J("sz17", "C20_string.c", ["-DSZ=17"], unwind=25, est=8, bound="all h, sz=17"))
+    js += [J("sz32", "C20_string.c", ["-DSZ=32"], unwind=34, est=12, bound="all h, sz=32")]
+    js += with_witness(J("parse", "C20_string.c", ["-DPARSE"], unwind=25, est=12, bound="all strings of <= 6 bytes"))
+    return js
+
+
+# ------------------------------------------------------------------------------------------- C04
+@prop("C04",
+      functions=["cellToParent", "cellToChildrenSize", "cellToCenterChild", "_zeroIndexDigits", "_hasChildAtRes", "_ipow", "iterInitParent", "_iterInitParent", "iterStepChild", "_incrementResDigit", "_getResDigit", "cellToChildren", "isPentagon"],
+      bounds={"quick": "cellToParent/cellToChildrenSize/cellToCenterChild: all valid cells of all 16 resolutions x every int resolution argument; iterator induction step: all valid children of resolutions 0-15 (quick: 0-8,15) x every parent resolution; cellToChildren end to end: depth 0-2 at res 0,5,13",
+              "thorough": "same with the iterator step at all 16 child resolutions and cellToChildren depth 0-2 at every resolution"},
+      outside="coincidence of the centre child's centre point with the parent's in lat/lng (trig); lattice-level coincidence is C03's FaceIJK check",
+      assumptions=["iterator representation invariant Inv (DESIGN C04.H3) is established by iterInitParent (proved) and preserved by iterStepChild (proved); a refactoring of IterCellsChildren's private fields needs the invariant restated"],
+      stubs=[])
+def c04(tier):
+    js = []
+    for r in ALLRES:
+        js.append(J("parent_r%d" % r, "C04_tree.c", ["-DPARENT", "-DRES=%d" % r], unwind=17, est=5, bound="all valid cells of res %d x all int parentRes" % r))
+        js.append(J("size_r%d" % r, "C04_tree.c", ["-DSIZE", "-DRES=%d" % r], unwind=17, est=8, bound="all valid cells of res %d x all int childRes" % r))
+        js.append(J("itinit_r%d" % r, "C04_tree.c", ["-DITINIT", "-DRES=%d" % r], unwind=17, est=5, bound="all valid parents of res %d x all int childRes" % r))
+        t = "quick" if r <= 8 or r == 15 else "thorough"
+        js.append(J("itstep_c%d" % r, "C04_tree.c", ["-DITSTEP", "-DRES=%d" % r], unwind=18, est=10 + 3 * r, tier=t, bound="any iterator state satisfying Inv at child res %d, any parent res" % r))
+    for r in (0, 7, 15):
+        js += with_witness(J("parent_r%d" % r, "C04_tree.c", ["-DPARENT", "-DRES=%d" % r], unwind=17, est=5))[1:]
+        js += with_witness(J("size_r%d" % r, "C04_tree.c", ["-DSIZE", "-DRES=%d" % r], unwind=17, est=5))[1:]
+        js += with_witness(J("itstep_c%d" % r, "C04_tree.c", ["-DITSTEP", "-DRES=%d" % r], unwind=18, est=10))[1:]
+    js += with_witness(J("itinit_r3", "C04_tree.c", ["-DITINIT", "-DRES=3"], unwind=17, est=5))[1:]
+    for r in ALLRES:
+        for n in (0, 1, 2):
+            if r + n > 15:
+                continue
+            t = "quick" if r in (0, 5, 13) and n < 2 else "thorough"
+            if n == 2 and r not in (0, 5, 13):
+                continue
+            j = J("children_r%d_n%d" % (r, n), "C04_tree.c", ["-DCHILDREN", "-DRES=%d" % r, "-DN=%d" % n], unwind=52, us={"iterStepChild.0": n + 3, "cellToChildren.0": 7 ** n + 2, "_ipow.0": 6}, est=30, tier=t, mem=("M" if n == 2 else "S"),
+                  bound="all valid cells of res %d, child depth %d" % (r, n))
+            js.append(j)
+    js += with_witness(J("children_r5_n1", "C04_tree.c", ["-DCHILDREN", "-DRES=5", "-DN=1"], unwind=52, us={"iterStepChild.0": 4, "cellToChildren.0": 9, "_ipow.0": 6}, est=30))[1:]
+    return js
